@@ -11,16 +11,17 @@ import (
 
 // RunSpec is one harness exploration.
 type RunSpec struct {
-	Fn       string         `json:"fn"`     // harness function name, e.g. H_parse
-	Setup    string         `json:"setup"`  // optional setup function (run once per worker, concretely)
-	Params   map[string]int `json:"params"` // concrete bounds
-	Fuel     int64          `json:"fuel"`
-	MaxPaths int64          `json:"max_paths"`
-	Timeout  time.Duration  `json:"timeout"`
-	Workers  int            `json:"workers"`
-	Sched    bool           `json:"sched"`
-	Preempt  int            `json:"preempt"`
-	Debug    bool           `json:"-"`
+	Fn            string         `json:"fn"`     // harness function name, e.g. H_parse
+	Setup         string         `json:"setup"`  // optional setup function (run once per worker, concretely)
+	Params        map[string]int `json:"params"` // concrete bounds
+	Fuel          int64          `json:"fuel"`
+	MaxPaths      int64          `json:"max_paths"`
+	Timeout       time.Duration  `json:"timeout"`
+	Workers       int            `json:"workers"`
+	Sched         bool           `json:"sched"`
+	Preempt       int            `json:"preempt"`
+	FuelViolation bool           `json:"fuel_violation"`
+	Debug         bool           `json:"-"`
 }
 
 // Run explores one harness function exhaustively within spec.
@@ -45,6 +46,7 @@ func (l *Loaded) Run(spec RunSpec, solver string, solverMs int) (*interp.Explore
 			return nil, err
 		}
 		w.SetParams(spec.Params)
+		w.FuelIsViolation(spec.FuelViolation)
 		if spec.Sched {
 			w.EnableScheduler(spec.Preempt)
 		}
